@@ -548,7 +548,112 @@ def rule_R6(ctx):
               "initial-TTL classes are %s, expected %s" % (merged, want), ctx.loc(gd))
 
 
+def _spec():
+    import json
+    import os
+    from ..engine.facts import VERIF
+    with open(os.path.join(VERIF, "tables", "spec_tables.json")) as fh:
+        return json.load(fh)
+
+
+def _divisor_norm(t):
+    """symbolic name of a window divisor term"""
+    t = T.strip(t)
+    k = T.fold_int(t)
+    if k is not None:
+        return str(k)
+    if t[0] == "param":
+        return t[2]
+    if t[0] == "call" and t[1].endswith(("saturating_add", "saturating_sub")) and len(t[2]) == 2:
+        a, c = _divisor_norm(t[2][0]), _divisor_norm(t[2][1])
+        return "%s%s%s" % (a, "+" if t[1].endswith("add") else "-", c)
+    if t[0] == "binop" and t[1] in ("Add", "Sub", "AddWithOverflow", "SubWithOverflow"):
+        return "%s%s%s" % (_divisor_norm(t[2]), "+" if t[1].startswith("Add") else "-", _divisor_norm(t[3]))
+    if t[0] == "field" and T.strip(t[1])[0] == "binop":
+        return _divisor_norm(t[1])
+    return T.pp(t)[:40]
+
+
+def rule_R7(ctx):
+    """window rendering: every `mss*k` / `mtu*k` / `%m` return of detect_win_multiplicator divides by a divisor of the
+    specification table, under exactly that divisor's remainder test and the table's IP-version / timestamp guards"""
+    P = ctx.program
+    spec = _spec()["window_multiplier"]
+    b = P.body("huginn_net_tcp::window_size::detect_win_multiplicator")
+    S = T.Slicer(b, P)
+    rows = {(r["variant"], r["divisor"]): r for r in spec["rows"]}
+    seen = set()
+    n = 0
+    for (i, j, t, _) in TB.return_sites(b, P):
+        t = T.strip(t)
+        if t[0] != "agg" or not (t[2] or "").endswith("WindowSize"):
+            ctx.cannot("R7", "window:return@%d" % n, "return value of detect_win_multiplicator is not a WindowSize constructor: %s" % T.pp(t)[:80], ctx.loc(b, i))
+            continue
+        var = t[3]
+        conds = Q.canon_conds(P, T.dom_conds(b, S, i))
+        if var == "Value":
+            ok = T.strip(t[4][0])[0] == "param" and T.strip(t[4][0])[2] == "window_size"
+            ctx.check(ok, "R7", "window:Value@%d" % i if False else "window:Value:%d" % len([x for x in seen if x[0] == "Value"]), "fallback renders the raw window", "raw window fallback does not carry window_size", ctx.loc(b, i))
+            seen.add(("Value", i))
+            continue
+        if var == "Mod":
+            arr = [x for x in T.walk(t) if x[0] == "agg" and x[1] == "array"]
+            vals = [T.fold_int(e) for e in arr[0][4]] if arr else []
+            rev = T.has_call(t, "::rev")
+            remz = any(c[0] == "cmp" and c[1] == "Eq" and c[4] is True and T.has_call(c[2], "checked_rem") for c in conds)
+            ctx.check(vals == spec["modulos"] and rev and remz, "R7", "window:Mod", "%%m for the largest m in %s dividing the window" % vals,
+                      "modulo rendering: values %s, largest-first=%s, remainder test=%s (expected %s, largest first, remainder zero)" % (vals, rev, remz, spec["modulos"]), ctx.loc(b, i))
+            seen.add(("Mod", 0))
+            continue
+        if var not in ("Mss", "Mtu"):
+            ctx.fail("R7", "window:variant:" + str(var), "unexpected window form %s" % var, ctx.loc(b, i))
+            continue
+        inner = T.strip(t[4][0])
+        while inner[0] == "cast":
+            inner = T.strip(inner[2])
+        if not (inner[0] == "binop" and inner[1] == "Div"):
+            ctx.fail("R7", "window:%s:shape@%d" % (var, n), "multiplier is not window_size / divisor: %s" % T.pp(inner)[:80], ctx.loc(b, i))
+            n += 1
+            continue
+        num, D = T.strip(inner[2]), T.strip(inner[3])
+        dn = _divisor_norm(D)
+        key = (var, dn)
+        inst = "window:%s/%s" % (var, dn)
+        row = rows.get(key)
+        if row is None:
+            ctx.fail("R7", inst, "window is rendered as a multiple of `%s` (%s): not a divisor of the specification table %s" % (dn, var, sorted(d for v, d in rows if v == var)), ctx.loc(b, i))
+            continue
+        seen.add(key)
+        ip = [c[2] for c in conds if c[0] == "variant" and c[3] is True and c[2] in ("V4", "V6") and T.pp(c[1]).endswith("ip_ver")]
+        ts = any(c[0] == "bool" and c[2] is True and T.pp(c[1]) == "has_ts" for c in conds)
+        remz = any(c[0] == "cmp" and c[1] == "Eq" and c[4] is True and T.strip(c[2])[0] == "binop" and T.strip(c[2])[1] == "Rem"
+                   and T.pp(T.strip(T.strip(c[2])[3])) == T.pp(D) and T.fold_int(c[3]) == 0 for c in conds)
+        fits = any(c[0] == "cmp" and c[1] == "Le" and c[4] is True and T.pp(T.strip(c[2])) == T.pp(inner) and T.fold_int(c[3]) == 255 for c in conds)
+        numok = num[0] == "param" and num[2] == "window_size"
+        problems = []
+        if row["ip"] and ip != [row["ip"]]:
+            problems.append("divisor %s belongs to %s but is used under %s" % (dn, row["ip"], ip or "any IP version"))
+        if not row["ip"] and ip:
+            problems.append("divisor %s is version independent but only used under %s" % (dn, ip))
+        if row["ts"] and not ts:
+            problems.append("timestamp-adjusted divisor %s used without the has_ts guard" % dn)
+        if not row["ts"] and ts:
+            problems.append("divisor %s only tried when a timestamp option is present" % dn)
+        if not remz:
+            problems.append("no `window %% %s == 0` test with the same divisor" % dn)
+        if not fits:
+            problems.append("factor not checked against 255")
+        if not numok:
+            problems.append("dividend is not window_size")
+        ctx.check(not problems, "R7", inst, "%s(window/%s) iff window %% %s == 0, factor <= 255%s%s" % (var, dn, dn, ", " + row["ip"] if row["ip"] else "", ", has_ts" if row["ts"] else ""),
+                  "; ".join(problems), ctx.loc(b, i))
+    missing = sorted(k for k in rows if k not in seen)
+    ctx.check(not missing, "R7", "window:table-complete", "all %d divisors of the table are tried" % len(rows), "divisors of the specification table never tried: %s" % missing, ctx.loc(b))
+    ctx.floor("R7", "window multiplier return sites", len(seen), 12)
+
+
 def run(ctx):
+    rule_R7(ctx)
     rule_R1_options(ctx)
     rule_R2(ctx)
     rule_R3_R4_R5(ctx)
